@@ -212,7 +212,7 @@ def shape_stage(ctx, cov):
     """Returns (s2_ok, detail). Records violations found by the directed search."""
     import time
     t0 = time.time()
-    n = int(os.environ.get("VERIF_C04_SHAPE_N", "0")) or (60 if ctx.quick else 2500)
+    n = int(os.environ.get("VERIF_C04_SHAPE_N", "0")) or (60 if ctx.quick else 800)
     level = int(os.environ.get("VERIF_C04_SHAPE_LEVEL", "4"))
     rc, out = ctx.harness("c04", ["shape", n, level], timeout=600 if ctx.quick else 6000)
     if rc != 0:
